@@ -67,6 +67,11 @@ func init() {
 // Respell returns an equivalent spelling of a number literal chosen by sel.
 func Respell(v *V, sel int) *V {
 	out := v.Clone()
+	if v.N.Sign() == 0 {
+		// zero has signed spellings too; they denote the same JSON value
+		out.Text = []string{"0", "-0", "0.0", "-0.0", "0e0", "-0e1", "0.00", "-0", "0", "-0.0"}[sel%10]
+		return out
+	}
 	base := RatText(v.N)
 	switch sel % 5 {
 	case 0:
